@@ -557,17 +557,6 @@ theorem partition_depth_pos (cfg : Cfg) (g : Group) : ∀ p ∈ partition cfg g,
     · exact plain _ _ _ p hp
   · exact plain _ _ _ p hp
 
-theorem mem_partition_items (cfg : Cfg) (g : Group) (it : Item) (hit : it ∈ g.items) :
-    ∃ p ∈ partition cfg g, it ∈ p.items := by
-  rw [← partition_items cfg g] at hit
-  simpa [gitems, List.mem_flatMap] using hit
-
-theorem partition_items_sub (cfg : Cfg) (g : Group) (p : Group) (hp : p ∈ partition cfg g) : ∀ it ∈ p.items, it ∈ g.items := by
-  intro it hit
-  rw [← partition_items cfg g]
-  simp only [gitems, List.mem_flatMap]
-  exact ⟨p, hp, hit⟩
-
 /-- (fix) a group whose budget covers its whole size is kept whole by `run`, at any remaining depth -/
 theorem run_fits_all_kept (cfg : Cfg) (hv : cfg.variant = .fitKeep) (hm : cfg.mode ≠ .quota) (fuel : Nat) (q : Group)
     (hden : q.denom = 1) (hfit : q.sumSize ≤ q.budget) (hsum : q.sumSize = sumSizes q.items)
